@@ -22,6 +22,9 @@ def jobs(tier):
         J.append(job('bc', 5, B=B, pres='list', order='desc', checks=ck)); J.append(job('bc', 6, B=B, pres='list', order='desc', checks=ck))
     J.append(job('bc', 7, B=7, pres='list', order='desc', checks=ck)); J.append(job('bc', 7, B=12, pres='list', order='desc', checks=ck))
     J.append(job('bc', 3, B=100, pres='list', checks=ck)); J.append(job('bc', 8, B=7, pres='list', order='desc', checks=ck))
+    for B in (10, 12):
+        J.append(job('bc', 8, B=B, pres='list', order='desc', lo=1, checks=ck)); J.append(job('bc', 9, B=B, pres='list', order='desc', lo=1, checks=ck))
+    J.append(job('bc', 9, B=7, pres='list', order='desc', lo=1, checks=ck))
     if tier == 'thorough':
         for alg in ('ff', 'bf'):
             J.append(job(alg, 5, checks=ck)); J.append(job(alg, 6, checks=ck, order='desc')); J.append(job(alg, 7, checks=ck, order='desc'))
@@ -34,5 +37,5 @@ def jobs(tier):
 
 ASSUMPTIONS = ['S1 numpy shim', 'S2 exact arithmetic (fractions with denominator 4 are exact in float64)',
                'bin completion: concrete bin sizes 7, 10, 12, 15, 20, 100 (its bound divides by the bin size, which the encoding keeps linear)']
-OUTSIDE = ['more than 6-7 items', 'bin completion with other bin sizes',
+OUTSIDE = ['more than 7 items for the fit heuristics, more than 9 for bin completion', 'bin completion with other bin sizes',
            'bin completion on named items (known finding, see C07)']
